@@ -89,6 +89,8 @@ def duration(r: Any, weights: Dict[str, int]) -> int:
         return r.randint(500_000, 3_000_000)
     if c == "poll":
         return 300_000 * r.randint(1, 3) + r.choice([-1, 0, 0, 1])
+    if c == "vlong":
+        return r.randint(4_000_000, 15_000_000)           # longer than any polling / logging interval a waiting loop might use
     if c == "tie":
         return r.choice([1_000, 50_000, 300_000])      # a few exact values: several bodies end in the very same loop iteration
     raise ValueError(c)
@@ -227,6 +229,9 @@ def gen_worker_script(rs: int, knobs: Optional[dict] = None) -> dict:
         "validate_params": rc.choice(kn["validate_params"]),
         "faults": faults,
     }
+    if cfg["A"] is None:
+        # "no limit" has three spellings: None, 0 and any negative number
+        cfg["A_raw"] = stream(rs, "a_raw").choice([None, None, 0, 0, -1, -5])
     mws = []
     lo, hi = kn["middlewares"]
     for i in range(rc.randint(lo, hi)):
